@@ -111,6 +111,13 @@ type recLogger struct {
 
 func (l *recLogger) Log(err error) { l.Msgs = append(l.Msgs, err.Error()) }
 
+func (l *recLogger) tail(n int) []string {
+	if len(l.Msgs) <= n {
+		return l.Msgs
+	}
+	return l.Msgs[len(l.Msgs)-n:]
+}
+
 func (l *recLogger) integrity() int {
 	n := 0
 	for _, m := range l.Msgs {
@@ -317,6 +324,7 @@ type simGroup struct {
 	cancel   context.CancelFunc
 	active   int
 	onReturn func()
+	firstG   int // goroutine id of the first routine started through the group
 }
 
 func newSimGroup(s *rt.Sched, proc int) *simGroup {
@@ -328,6 +336,9 @@ func (g *simGroup) Go(routine program.Routine) {
 	g.active++
 	g.s.GoProc("routine", g.proc, true, func() {
 		defer func() { g.active-- }()
+		if g.firstG == 0 {
+			g.firstG = g.s.Cur().ID
+		}
 		routine(g.ctx, g, g)
 		if g.onReturn != nil {
 			g.onReturn()
